@@ -650,6 +650,61 @@ theorem calcchain_follows_adjust (dir : Dir) (num : Nat) (offset : Int) (sid : I
     cases hm
     exact ⟨fun h' => absurd h' hi, fun _ => he⟩
 
+/-- every chain entry carries an explicit sheet id and names a formula cell of that sheet -/
+def chainOkC (s : ChainState) : Prop := ∀ e ∈ s.chain, e.i ≠ 0 ∧ (e.i, e.col, e.row) ∈ s.formulas
+
+inductive CellOp where
+  | setValue (sid : Int) (c r : Nat)
+  | setFormula (sid : Int) (c r : Nat) (empty : Bool)
+
+def stepCell (s : ChainState) : CellOp → ChainState
+  | .setValue sid c r => setCellValueC s sid c r
+  | .setFormula sid c r e => setCellFormulaC s sid c r e
+
+theorem dropChainAt_spec (cc : List CalcPos) (sid : Int) (c r : Nat) :
+    ∀ e ∈ dropChainAt cc sid c r, e ∈ cc ∧ ¬ (e.i = sid ∧ e.col = c ∧ e.row = r) := by
+  intro e he
+  unfold dropChainAt at he
+  obtain ⟨h1, h2⟩ := List.mem_filter.mp he
+  refine ⟨h1, ?_⟩
+  intro ⟨a, b, d⟩
+  simp [a, b, d] at h2
+
+/-- `calcchain_across_setters`: on a workbook whose calcChain names only formula cells, every
+history of SetCellValue-like setters and SetCellFormula (empty or not, on chained cells or
+elsewhere, on any sheet) keeps it so: overwriting a chained formula removes its entry together
+with the formula, nothing else touches the chain. -/
+theorem calcchain_across_setters (ops : List CellOp) (s : ChainState) (h : chainOkC s) :
+    chainOkC (ops.foldl stepCell s) := by
+  induction ops generalizing s with
+  | nil => exact h
+  | cons o os ih =>
+    apply ih
+    have drop : ∀ sid c r, chainOkC { formulas := s.formulas.filter (· != (sid, c, r)), chain := dropChainAt s.chain sid c r } := by
+      intro sid c r e he
+      obtain ⟨hm, hne⟩ := dropChainAt_spec s.chain sid c r e he
+      obtain ⟨h0, hf⟩ := h e hm
+      refine ⟨h0, List.mem_filter.mpr ⟨hf, ?_⟩⟩
+      simp only [bne_iff_ne, ne_eq, Prod.mk.injEq, not_and]
+      intro a b d; exact hne ⟨a, b, d⟩
+    cases o with
+    | setValue sid c r =>
+      simp only [stepCell, setCellValueC]
+      split
+      · exact drop sid c r
+      · exact h
+    | setFormula sid c r e =>
+      simp only [stepCell, setCellFormulaC]
+      split
+      · exact drop sid c r
+      · intro x hx
+        obtain ⟨h0, hf⟩ := h x hx
+        refine ⟨h0, ?_⟩
+        show _ ∈ (if s.formulas.contains (sid, c, r) then s.formulas else s.formulas ++ [(sid, c, r)])
+        split
+        · exact hf
+        · exact List.mem_append_left _ hf
+
 /-! ## pictures sharing a media part -/
 
 /-- inside one drawing no two image relationships have the same target -/
